@@ -441,3 +441,5 @@ package container
 //@   ensures @C19 err != nil ==> len(msg.Fds) == 0 && all_arrived_closed()
 //@   ensures @C19 err == nil ==> len(msg.Fds) == S.nrights && forall k int :: 0 <= k && k < S.nrights ==> msg.Fds[k] == S.right[k] && !FD.closed[S.right[k]]
 //@   callsite bytes.NewBuffer: assert @C19 len(buf) <= len(s.buff)
+//@   loop 0: invariant -1 <= rangeindex && rangeindex < len(msg.Fds) && len(msg.Fds) == S.nrights && (forall k int :: 0 <= k && k < S.nrights ==> msg.Fds[k] == S.right[k])
+//@   loop 0: invariant forall k int :: 0 <= k && k <= rangeindex ==> FD.closed[S.right[k]]
